@@ -39,6 +39,7 @@ type checkCfg struct {
 	needUnopt bool
 	argVecs   int
 	nFuncs    int
+	maxFault  int
 }
 
 const maxViolationsPerWorker = 3
@@ -71,7 +72,12 @@ func runProfile(j *core.Job, cc checkCfg) {
 		if cc.nFuncs > 0 {
 			cfg.NFuncs = cc.nFuncs
 		}
-		prog := gen.GenProg(prng.Derive(j.Seed, cc.prop, bn, "prog"), cfg, "p")
+		var prog *gen.Prog
+		if cc.profile == "depth" {
+			prog = gen.DepthProg(prng.Derive(j.Seed, cc.prop, bn, "prog"), j.Thorough())
+		} else {
+			prog = gen.GenProg(prng.Derive(j.Seed, cc.prop, bn, "prog"), cfg, "p")
+		}
 		b := env.NewBatch(prog)
 		rep.Count("programs_generated", prog.NumFuncs())
 		b.WriteSources()
@@ -100,7 +106,12 @@ func runProfile(j *core.Job, cc checkCfg) {
 				rep.Count("feature_"+ft, 1)
 			}
 		}
-		res := b.Run(driver.Spec{Prop: cc.prop, Oracle: cc.oracle, Seed: j.Seed, Batch: bn, ArgVecs: cc.argVecs, Samples: 2})
+		res := b.Run(driver.Spec{Prop: cc.prop, Oracle: cc.oracle, Seed: j.Seed, Batch: bn, ArgVecs: cc.argVecs, MaxFault: cc.maxFault, Samples: 2})
+		for name, ds := range res.Sets {
+			for _, d := range ds {
+				rep.SetAdd(name, d)
+			}
+		}
 		rep.Evals += res.Scenarios
 		for k, v := range res.Counters {
 			rep.Count(k, v)
@@ -133,4 +144,40 @@ func C02(j *core.Job) {
 
 func C01(j *core.Job) {
 	runProfile(j, checkCfg{prop: "C01", profile: "control", oracle: "values", argVecs: 36})
+}
+
+func C03(j *core.Job) {
+	runProfile(j, checkCfg{prop: "C03", profile: "scope", oracle: "refeq", argVecs: 12})
+}
+
+func C04(j *core.Job) {
+	runProfile(j, checkCfg{prop: "C04", profile: "range", oracle: "refeq", argVecs: 12})
+}
+
+func C05(j *core.Job) {
+	runProfile(j, checkCfg{prop: "C05", profile: "delegation", oracle: "refeq", argVecs: 12})
+}
+
+func C06(j *core.Job) {
+	runProfile(j, checkCfg{prop: "C06", profile: "consumer", oracle: "refeq", argVecs: 12})
+}
+
+func C07(j *core.Job) {
+	runProfile(j, checkCfg{prop: "C07", profile: "all", oracle: "optunopt", needUnopt: true, argVecs: 10, maxFault: 4})
+}
+
+func C13(j *core.Job) {
+	runProfile(j, checkCfg{prop: "C13", profile: "bystander", oracle: "refeq", argVecs: 16})
+}
+
+func C14(j *core.Job) {
+	runProfile(j, checkCfg{prop: "C14", profile: "all", oracle: "solo", argVecs: 6})
+}
+
+func C18(j *core.Job) {
+	runProfile(j, checkCfg{prop: "C18", profile: "all", oracle: "panic", argVecs: 4, maxFault: 60})
+}
+
+func C17(j *core.Job) {
+	runProfile(j, checkCfg{prop: "C17", profile: "depth", oracle: "depth"})
 }
